@@ -97,13 +97,14 @@ theorem fact_jar_ldproof :
     "crypto.ParseJWT" ∈ Facts.C17.vcJwtSignatureCalls := by decide
 
 /-- v1 authz server: validateIssuer binds the kid to `iss`; both ParseJWT call sites use the DID key resolver (introspection
-    additionally requires the key to be one of this node's own) -/
+    additionally requires the key to be one of this node's own: an ERROR of the key store lookup and "not present" are both
+    error exits of the key callback, in that order, before the resolver is asked) -/
 theorem fact_authzV1 :
     Facts.C17.authzV1ChecksKidIssuer = true ∧
     "kidDID, err := did.ParseDIDURL(vContext.kid); err != nil || kidDID.DID.String() != vContext.requester.String()" ∈ Facts.C17.validateIssuerErrConds ∧
     "nutsCrypto.ParseJWT" ∈ Facts.C17.parseBearerTokenCalls ∧ "s.keyResolver.ResolveKeyByID" ∈ Facts.C17.parseBearerTokenCalls ∧
     "nutsCrypto.ParseJWT" ∈ Facts.C17.introspectCalls ∧ "s.privateKeyStore.Exists" ∈ Facts.C17.introspectCalls ∧
-    "!exists" ∈ Facts.C17.introspectErrConds := by decide
+    Facts.C17.introspectErrConds.take 2 = ["err != nil", "!exists"] := by decide
 
 /-- the process-global allow-list is extended in exactly one place (the ES256K build tag), and the DAG signature verifier is
     installed by the network engine -/
